@@ -1,0 +1,230 @@
+//go:build verif
+
+// Contracts for package linkedlist, checked by /verif/gvc (see /verif/DESIGN.md, C11).
+//
+// Ghost description of the list shape (no recursion): for a buffer llb,
+//   lnodes[llb][i]   the i-th node (0 <= i < size)
+//   lpoff[llb][i]    number of bytes held by the nodes before node i (prefix sums, lpoff[llb][size] == bytes)
+//   lview[llb][x]    the x-th byte of the queue (0 <= x < bytes)
+//   npos[llb][n]     position of node n in llb
+//   nown[n]          the buffer that currently links node n (nil: none); frames are stated over it
+// The ghost state is changed only by the ghostdef clauses of pop / pushFront / pushBack.
+
+package linkedlist
+
+//@ ghost var lnodes map[Ref]map[int]Ref
+//@ ghost var lpoff map[Ref]map[int]int
+//@ ghost var lview map[Ref]map[int]int
+//@ ghost var npos map[Ref]map[Ref]int
+//@ ghost var nown map[Ref]Ref
+//
+//@ pure nd(llb *Buffer, i int) *node := lnodes[llb][i]
+//@ pred innode(llb *Buffer, x *node) := 0 <= npos[llb][x] && npos[llb][x] < llb.size && lnodes[llb][npos[llb][x]] == x
+//@ pred notin(llb *Buffer, b *node) := forall i :: 0 <= i && i < llb.size ==> lnodes[llb][i] != b
+//@ pred mine(llb *Buffer, x *node) := nown[x] == llb || nown[x] == nil
+//@ pred noalias(llb *Buffer, p []byte) := forall i :: 0 <= i && i < llb.size ==> disjoint(nd(llb, i).buf, p)
+//@ pred wf(llb *Buffer) := llb != nil && llb.size >= 0 &&
+//@     llb.head == (llb.size > 0 ? lnodes[llb][0] : nil) &&
+//@     llb.tail == (llb.size > 0 ? lnodes[llb][llb.size - 1] : nil) &&
+//@     lpoff[llb][0] == 0 && llb.bytes == lpoff[llb][llb.size] &&
+//@     (forall i, j :: 0 <= i && i <= j && j <= llb.size ==> lpoff[llb][i] <= lpoff[llb][j]) &&
+//@     (forall x *node :: !allocated(x) ==> nown[x] == nil) &&
+//@     (forall i :: 0 <= i && i < llb.size ==> nd(llb, i) != nil && allocated(nd(llb, i)) && npos[llb][nd(llb, i)] == i && nown[nd(llb, i)] == llb &&
+//@          nd(llb, i).next == (i + 1 < llb.size ? lnodes[llb][i + 1] : nil) && len(nd(llb, i).buf) > 0 && allocated(nd(llb, i).buf) &&
+//@          lpoff[llb][i + 1] == lpoff[llb][i] + len(nd(llb, i).buf)) &&
+//@     (forall i, t :: 0 <= i && i < llb.size && 0 <= t && t < len(nd(llb, i).buf) ==>
+//@          lview[llb][lpoff[llb][i] + t] == nd(llb, i).buf[t])
+//
+// ---- node helpers (L0): the only functions that change the shape ------------------------------
+//
+// pop: removes the head node (take of len(head.buf) bytes); nil iff the list is empty.
+//@ func (llb *Buffer) pop() (b *node)
+//@   requires wf(llb)
+//@   arith unchecked the byte and node counters of a list stay far below 2^63 (memory is finite)
+//@   modifies llb.head, llb.tail, llb.size, llb.bytes, lnodes[llb], lpoff[llb], lview[llb], npos[llb], nown
+//@   modifies llb.head.next if llb.head != nil
+//@   ghostdef forall i :: lnodes[llb][i] := old(llb.size) > 0 ? old(lnodes[llb][i + 1]) : old(lnodes[llb][i])
+//@   ghostdef forall i :: lpoff[llb][i] := old(llb.size) > 0 ? old(lpoff[llb][i + 1]) - old(lpoff[llb][1]) : old(lpoff[llb][i])
+//@   ghostdef forall i :: lview[llb][i] := old(llb.size) > 0 ? old(lview[llb][i + lpoff[llb][1]]) : old(lview[llb][i])
+//@   ghostdef forall x *node :: npos[llb][x] := old(llb.size) > 0 && old(innode(llb, x)) ? old(npos[llb][x]) - 1 : old(npos[llb][x])
+//@   ghostdef forall x *node :: nown[x] := old(llb.size) > 0 && x == old(llb.head) ? nil : old(nown[x])
+//@   ensures old(llb.size) == 0 ==> b == nil && llb.size == 0 && llb.bytes == old(llb.bytes)
+//@   ensures old(llb.size) > 0 ==> b == old(llb.head) && b != nil && allocated(b) && b.next == nil && len(b.buf) > 0 &&
+//@        same(b.buf, old(llb.head.buf)) && llb.size == old(llb.size) - 1 && llb.bytes == old(llb.bytes) - len(b.buf)
+//@   ensures wf(llb) && (b != nil ==> nown[b] == nil)
+//@   ensures forall x *node :: x != b ==> nown[x] == old(nown[x])
+//@   ensures forall t :: 0 <= t && t < len(b.buf) && old(llb.size) > 0 ==> b.buf[t] == old(lview[llb][t])
+//@   ensures forall i :: 0 <= i && i < llb.bytes && old(llb.size) > 0 ==> lview[llb][i] == old(lview[llb][i + lpoff[llb][1]])
+//@   ensures old(llb.size) > 0 ==> old(lpoff[llb][1]) == len(b.buf)
+//@   ensures forall i :: 0 <= i && i < llb.size ==> nd(llb, i) == old(nd(llb, i + 1))
+//
+// pushFront: prepends b.buf.
+//@ func (llb *Buffer) pushFront(b *node)
+//@   requires wf(llb) && b != nil && allocated(b) && len(b.buf) > 0 && nown[b] == nil
+//@   arith unchecked the byte and node counters of a list stay far below 2^63 (memory is finite)
+//@   modifies b.next, llb.head, llb.tail, llb.size, llb.bytes, lnodes[llb], lpoff[llb], lview[llb], npos[llb], nown[b]
+//@   ghostdef forall i :: lnodes[llb][i] := i == 0 ? b : old(lnodes[llb][i - 1])
+//@   ghostdef forall i :: lpoff[llb][i] := i <= 0 ? 0 : old(lpoff[llb][i - 1]) + len(b.buf)
+//@   ghostdef forall i :: lview[llb][i] := i < len(b.buf) ? b.buf[i] : old(lview[llb][i - len(b.buf)])
+//@   ghostdef forall x *node :: npos[llb][x] := x == b ? 0 : (old(innode(llb, x)) ? old(npos[llb][x]) + 1 : old(npos[llb][x]))
+//@   ghostdef nown[b] := llb
+//@   ensures wf(llb) && llb.size == old(llb.size) + 1 && llb.bytes == old(llb.bytes) + len(b.buf) && llb.head == b
+//@   ensures forall t :: 0 <= t && t < len(b.buf) ==> lview[llb][t] == b.buf[t]
+//@   ensures forall i :: 0 <= i && i < old(llb.bytes) ==> lview[llb][len(b.buf) + i] == old(lview[llb][i])
+//@   ensures forall i :: 1 <= i && i < llb.size ==> nd(llb, i) == old(nd(llb, i - 1))
+//
+// pushBack: appends b.buf.
+//@ func (llb *Buffer) pushBack(b *node)
+//@   requires wf(llb) && b != nil && allocated(b) && len(b.buf) > 0 && nown[b] == nil
+//@   arith unchecked the byte and node counters of a list stay far below 2^63 (memory is finite)
+//@   modifies b.next, llb.head, llb.tail, llb.size, llb.bytes, lnodes[llb], lpoff[llb], lview[llb], npos[llb], nown[b]
+//@   modifies llb.tail.next if llb.tail != nil
+//@   ghostdef forall i :: lnodes[llb][i] := i == old(llb.size) ? b : old(lnodes[llb][i])
+//@   ghostdef forall i :: lpoff[llb][i] := i == old(llb.size) + 1 ? old(llb.bytes) + len(b.buf) : old(lpoff[llb][i])
+//@   ghostdef forall i :: lview[llb][i] := old(llb.bytes) <= i && i < old(llb.bytes) + len(b.buf) ? b.buf[i - old(llb.bytes)] : old(lview[llb][i])
+//@   ghostdef npos[llb][b] := old(llb.size)
+//@   ghostdef nown[b] := llb
+//@   ensures wf(llb) && llb.size == old(llb.size) + 1 && llb.bytes == old(llb.bytes) + len(b.buf) && llb.tail == b
+//@   ensures forall i :: 0 <= i && i < old(llb.bytes) ==> lview[llb][i] == old(lview[llb][i])
+//@   ensures forall t :: 0 <= t && t < len(b.buf) ==> lview[llb][old(llb.bytes) + t] == b.buf[t]
+//@   ensures forall i :: 0 <= i && i < old(llb.size) ==> nd(llb, i) == old(nd(llb, i))
+//
+// ---- public methods (L1): verified against the helper contracts ---------------------------------
+//
+//@ func (llb *Buffer) Len() int
+//@   requires wf(llb)
+//@   ensures res == llb.size
+//
+//@ func (llb *Buffer) Buffered() int
+//@   requires wf(llb)
+//@   ensures res == llb.bytes && res >= 0
+//
+//@ func (llb *Buffer) IsEmpty() bool
+//@   requires wf(llb)
+//@   ensures res <==> llb.bytes == 0
+//
+//@ func (llb *Buffer) Append(p []byte)
+//@   requires wf(llb)
+//@   modifies llb.head, llb.tail, llb.size, llb.bytes, lnodes[llb], lpoff[llb], lview[llb], npos[llb], nown
+//@   modifies-each x *node where mine(llb, x) :: next
+//@   ensures wf(llb) && llb.bytes == old(llb.bytes) + len(p)
+//@   ensures forall i :: 0 <= i && i < old(llb.bytes) ==> lview[llb][i] == old(lview[llb][i])
+//@   ensures forall t :: 0 <= t && t < len(p) ==> lview[llb][old(llb.bytes) + t] == p[t]
+//@   ensures forall x *node :: old(allocated(x)) && old(nown[x]) != llb ==> nown[x] == old(nown[x])
+//
+//@ func (llb *Buffer) Pop() []byte
+//@   requires wf(llb)
+//@   modifies llb.head, llb.tail, llb.size, llb.bytes, lnodes[llb], lpoff[llb], lview[llb], npos[llb], nown
+//@   modifies-each x *node where mine(llb, x) :: next
+//@   ensures wf(llb)
+//@   ensures old(llb.size) == 0 ==> res == nil && llb.bytes == old(llb.bytes)
+//@   ensures old(llb.size) > 0 ==> len(res) > 0 && llb.bytes == old(llb.bytes) - len(res) && llb.size == old(llb.size) - 1
+//@   ensures forall t :: 0 <= t && t < len(res) && old(llb.size) > 0 ==> res[t] == old(lview[llb][t])
+//@   ensures forall i :: 0 <= i && i < llb.bytes && old(llb.size) > 0 ==> lview[llb][i] == old(lview[llb][i + len(res)])
+//
+// PushFront / PushBack copy their argument: the stored bytes live in memory obtained from the pool.
+//@ func (llb *Buffer) PushFront(p []byte)
+//@   requires wf(llb)
+//@   modifies llb.head, llb.tail, llb.size, llb.bytes, lnodes[llb], lpoff[llb], lview[llb], npos[llb], nown
+//@   modifies-each x *node where mine(llb, x) :: next
+//@   ensures wf(llb) && llb.bytes == old(llb.bytes) + len(p)
+//@   ensures forall t :: 0 <= t && t < len(p) ==> lview[llb][t] == p[t]
+//@   ensures forall i :: 0 <= i && i < old(llb.bytes) ==> lview[llb][len(p) + i] == old(lview[llb][i])
+//@   ensures len(p) > 0 ==> fresh(nd(llb, 0).buf)
+//
+//@ func (llb *Buffer) PushBack(p []byte)
+//@   requires wf(llb)
+//@   modifies llb.head, llb.tail, llb.size, llb.bytes, lnodes[llb], lpoff[llb], lview[llb], npos[llb], nown
+//@   modifies-each x *node where mine(llb, x) :: next
+//@   ensures wf(llb) && llb.bytes == old(llb.bytes) + len(p)
+//@   ensures forall i :: 0 <= i && i < old(llb.bytes) ==> lview[llb][i] == old(lview[llb][i])
+//@   ensures forall t :: 0 <= t && t < len(p) ==> lview[llb][old(llb.bytes) + t] == p[t]
+//@   ensures len(p) > 0 ==> fresh(nd(llb, llb.size - 1).buf)
+//
+// Read: take of min(len(p), Buffered) bytes into p.
+//@ func (llb *Buffer) Read(p []byte) (n int, err error)
+//@   requires wf(llb) && noalias(llb, p)
+//@   arith unchecked the byte counters stay far below 2^63
+//@   modifies llb.head, llb.tail, llb.size, llb.bytes, lnodes[llb], lpoff[llb], lview[llb], npos[llb], nown, mem(p)
+//@   modifies-each x *node where mine(llb, x) :: buf, next
+//@   ensures wf(llb) && n == min(len(p), old(llb.bytes)) && llb.bytes == old(llb.bytes) - n
+//@   ensures forall i :: 0 <= i && i < n ==> p[i] == old(lview[llb][i])
+//@   ensures forall i :: 0 <= i && i < llb.bytes ==> lview[llb][i] == old(lview[llb][n + i])
+//@   ensures len(p) > 0 && old(llb.bytes) == 0 ==> err == io.EOF
+//@   ensures len(p) == 0 || old(llb.bytes) > 0 ==> err == nil
+//@   ensures forall x *node :: old(nown[x]) != llb ==> nown[x] == old(nown[x])
+//@   loop 1:
+//@     invariant wf(llb) && noalias(llb, p) && llb == llb$0 && same(p, p$0) && err == nil
+//@     invariant 0 <= n && n <= len(p) && (b != nil ==> n < len(p)) && (b == nil ==> llb.size == 0)
+//@     invariant b != nil ==> allocated(b) && nown[b] == nil && old(nown[b]) == llb && len(b.buf) > 0 && disjoint(b.buf, p) && allocated(b.buf) && b.next == nil
+//@     invariant llb.bytes + (b != nil ? len(b.buf) : 0) == old(llb.bytes) - n
+//@     invariant forall i :: 0 <= i && i < n ==> p[i] == old(lview[llb])[i]
+//@     invariant forall t :: b != nil && 0 <= t && t < len(b.buf) ==> b.buf[t] == old(lview[llb])[n + t]
+//@     invariant forall i :: 0 <= i && i < llb.bytes ==> lview[llb][i] == old(lview[llb])[n + (b != nil ? len(b.buf) : 0) + i]
+//@     invariant forall x *node :: (nown[x] == llb ==> old(nown[x]) == llb) && (old(nown[x]) != llb ==> nown[x] == old(nown[x]))
+//
+// Discard: removes exactly min(n, Buffered) bytes from the front (nothing for n <= 0).
+//@ func (llb *Buffer) Discard(n int) (discarded int, err error)
+//@   requires wf(llb)
+//@   arith unchecked the byte counters stay far below 2^63
+//@   modifies llb.head, llb.tail, llb.size, llb.bytes, lnodes[llb], lpoff[llb], lview[llb], npos[llb], nown
+//@   modifies-each x *node where mine(llb, x) :: buf, next
+//@   ensures wf(llb) && err == nil && discarded == (n <= 0 ? 0 : min(n, old(llb.bytes))) && llb.bytes == old(llb.bytes) - discarded
+//@   ensures forall i :: 0 <= i && i < llb.bytes ==> lview[llb][i] == old(lview[llb])[discarded + i]
+//@   ensures forall x *node :: old(nown[x]) != llb ==> nown[x] == old(nown[x])
+//@   assert after pop #1: forall i :: 0 <= i && i < llb.bytes ==> lview[llb][i] == old(lview[llb])[discarded + (result != nil ? len(result.buf) : 0) + i]
+//@   assert after pop #1: forall t :: result != nil && 0 <= t && t < len(result.buf) ==> result.buf[t] == old(lview[llb])[discarded + t]
+//@   loop 1:
+//@     invariant wf(llb) && llb == llb$0 && err == nil && 0 <= n && 0 <= discarded && n + discarded == n$0 && n$0 > 0
+//@     invariant llb.bytes == old(llb.bytes) - discarded
+//@     invariant forall i :: 0 <= i && i < llb.bytes ==> lview[llb][i] == old(lview[llb])[discarded + i]
+//@     invariant forall x *node :: (nown[x] == llb ==> old(nown[x]) == llb) && (old(nown[x]) != llb ==> nown[x] == old(nown[x]))
+//
+//@ func (llb *Buffer) Reset()
+//@   requires wf(llb)
+//@   modifies llb.head, llb.tail, llb.size, llb.bytes, lnodes[llb], lpoff[llb], lview[llb], npos[llb], nown
+//@   modifies-each x *node where mine(llb, x) :: buf, next
+//@   ensures wf(llb) && llb.bytes == 0 && llb.size == 0
+//@   ensures forall x *node :: old(nown[x]) != llb ==> nown[x] == old(nown[x])
+//@   loop 1:
+//@     invariant wf(llb) && llb == llb$0 && (b == nil ==> llb.size == 0)
+//@     invariant b != nil ==> allocated(b) && old(nown[b]) == llb
+//@     invariant forall x *node :: (nown[x] == llb ==> old(nown[x]) == llb) && (old(nown[x]) != llb ==> nown[x] == old(nown[x]))
+//
+// ReadFrom: stores every byte the reader returned (also bytes returned together with EOF or an error)
+// and reports exactly that count.
+//@ func (llb *Buffer) ReadFrom(r io.Reader) (n int64, err error)
+//@   requires wf(llb) && r != nil
+//@   arith unchecked the byte counters stay far below 2^63
+//@   modifies llb.head, llb.tail, llb.size, llb.bytes, lnodes[llb], lpoff[llb], lview[llb], npos[llb], nown, rpos[ref(r)]
+//@   modifies-each x *node where mine(llb, x) :: next
+//@   ensures wf(llb) && n == rpos[ref(r)] - old(rpos[ref(r)]) && llb.bytes == old(llb.bytes) + n
+//@   ensures forall i :: 0 <= i && i < old(llb.bytes) ==> lview[llb][i] == old(lview[llb])[i]
+//@   ensures forall j :: 0 <= j && j < n ==> lview[llb][old(llb.bytes) + j] == rdata[ref(r)][old(rpos[ref(r)]) + j]
+//@   ensures forall x *node :: old(allocated(x)) && old(nown[x]) != llb ==> nown[x] == old(nown[x])
+//@   loop 1:
+//@     invariant wf(llb) && llb == llb$0 && same(r, r$0) && n >= 0
+//@     invariant n == rpos[ref(r)] - old(rpos[ref(r)]) && llb.bytes == old(llb.bytes) + n
+//@     invariant forall i :: 0 <= i && i < old(llb.bytes) ==> lview[llb][i] == old(lview[llb])[i]
+//@     invariant forall j :: 0 <= j && j < n ==> lview[llb][old(llb.bytes) + j] == rdata[ref(r)][old(rpos[ref(r)]) + j]
+//@     invariant forall x *node :: (old(allocated(x)) && nown[x] == llb ==> old(nown[x]) == llb) && (old(allocated(x)) && old(nown[x]) != llb ==> nown[x] == old(nown[x]))
+//
+// WriteTo: removes exactly the bytes the writer accepted, also when it fails in the middle of a node.
+//@ func (llb *Buffer) WriteTo(w io.Writer) (n int64, err error)
+//@   requires wf(llb) && w != nil
+//@   arith unchecked the byte counters stay far below 2^63
+//@   modifies llb.head, llb.tail, llb.size, llb.bytes, lnodes[llb], lpoff[llb], lview[llb], npos[llb], nown, wpos[ref(w)], wdata[ref(w)]
+//@   modifies-each x *node where mine(llb, x) :: buf, next
+//@   ensures wf(llb) && n == wpos[ref(w)] - old(wpos[ref(w)]) && 0 <= n && n <= old(llb.bytes) && llb.bytes == old(llb.bytes) - n
+//@   ensures forall i :: 0 <= i && i < llb.bytes ==> lview[llb][i] == old(lview[llb])[n + i]
+//@   ensures forall i :: 0 <= i && i < n ==> wdata[ref(w)][old(wpos[ref(w)]) + i] == old(lview[llb])[i]
+//@   ensures err == nil ==> n == old(llb.bytes)
+//@   ensures forall x *node :: old(nown[x]) != llb ==> nown[x] == old(nown[x])
+//@   loop 1:
+//@     invariant wf(llb) && llb == llb$0 && same(w, w$0) && err == nil && n >= 0 && (b == nil ==> llb.size == 0)
+//@     invariant b != nil ==> allocated(b) && nown[b] == nil && old(nown[b]) == llb && len(b.buf) > 0 && allocated(b.buf) && b.next == nil
+//@     invariant n == wpos[ref(w)] - old(wpos[ref(w)]) && llb.bytes + (b != nil ? len(b.buf) : 0) == old(llb.bytes) - n
+//@     invariant forall t :: b != nil && 0 <= t && t < len(b.buf) ==> b.buf[t] == old(lview[llb])[n + t]
+//@     invariant forall i :: 0 <= i && i < llb.bytes ==> lview[llb][i] == old(lview[llb])[n + (b != nil ? len(b.buf) : 0) + i]
+//@     invariant forall i :: 0 <= i && i < n ==> wdata[ref(w)][old(wpos[ref(w)]) + i] == old(lview[llb])[i]
+//@     invariant forall x *node :: (nown[x] == llb ==> old(nown[x]) == llb) && (old(nown[x]) != llb ==> nown[x] == old(nown[x]))
